@@ -23,10 +23,10 @@ pub const EXIT_SLACK_MS: u64 = 100;
 pub const ADMIN_MSG: &str = "terminating connection due to administrator command";
 
 pub const CLIENT_PROGS: &[&str] = &[
-    "idle", "txn-slow", "txn-never", "autos", "ext-slow", "copy-slow", "drop-early", "drop-in-txn-early", "term-early", "badpw", "late", "late-slow", "session", "drop-after", "idle-then-q", "cancel-early", "slow-login", "half-batch-idle",
+    "idle", "txn-slow", "txn-never", "autos", "ext-slow", "copy-slow", "drop-early", "drop-in-txn-early", "term-early", "badpw", "late", "late-slow", "session", "drop-after", "idle-then-q", "cancel-early", "slow-login", "half-batch-idle", "login-at-60",
 ];
 pub const ADMIN_PROGS: &[&str] = &["none", "admin-early", "admin-late", "admin-split"];
-pub const SIGNALS: &[&str] = &["INT", "SHUTDOWN", "TERM", "INT+INT", "HUP+INT", "INT+TERM", "HUP", "none", "INT-at-0"];
+pub const SIGNALS: &[&str] = &["INT", "SHUTDOWN", "TERM", "INT+INT", "HUP+INT", "INT+TERM", "HUP", "none", "INT-at-0", "PAUSE+INT"];
 
 fn kind_of(prog: &str) -> &'static str {
     match prog {
@@ -89,6 +89,8 @@ fn client(c: usize, prog: &str) -> Script {
         // a CancelRequest connection (nobody's key) before the signal: it comes and goes through the same counter
         "cancel-early" => Script::new(&name).step(Step::Cancel(crate::world::CancelKey::Raw(4242, 2424))),
         "badpw" => Script::new(&name).connect("alice", "db", Some("wrong")).wait(Cond::Closed),
+        // logs in a little before the signal (after the PAUSE of the PAUSE+INT pattern) and sends nothing
+        "login-at-60" => Script::new(&name).wait(Cond::TimeMs(60)).connect("alice", "db", Some("alicepw")).wait(Cond::Closed),
         // Parse and Bind sent, no Sync yet: nothing has started, the client is between transactions
         "half-batch-idle" => {
             let mut b = wire::parse("", &format!("SELECT 1 /*{}*/", t(0, 0)), &[]);
@@ -141,6 +143,8 @@ fn signal_actor(sig: &str) -> Vec<Step> {
         "HUP+INT" => vec![at(40), Step::Signal("HUP"), at(T_SIG), Step::Signal("INT"), end],
         "INT+TERM" => vec![at(T_SIG), Step::Signal("INT"), at(T_SIG + 150), Step::Signal("TERM"), end],
         "HUP" => vec![at(T_SIG), Step::Signal("HUP"), end],
+        // the pools are paused (and stay so) when the signal arrives
+        "PAUSE+INT" => vec![at(40), Step::Admin("PAUSE".into()), at(T_SIG), Step::Signal("INT"), end],
         "none" => vec![end],
         _ => panic!("signal"),
     }
@@ -627,7 +631,7 @@ pub fn build(tier: &str) -> SimCheck {
         oracle: Box::new(oracle),
         bound: if thorough { 3 } else { 2 },
         limits: Limits { max_wall_s: if thorough { 3000.0 } else { 55.0 }, ..Default::default() },
-        rule: "the accept/signal/drain loop of src/main.rs (extracted verbatim at build time) runs in the sim with the real client tasks; population = client programs (idle, slow / never-ending / extended / COPY transactions across the signal, autocommit, leaves before the signal by Terminate / hard drop / hard drop in a transaction / failed login, a cancel-request connection before the signal, a client with half a batch buffered (Parse Bind, no Sync), arrives after the signal early and late, TCP connection accepted before the signal but startup and password sent after it, session-mode, drops after the signal, statement racing the signal) + admin client (connected before, arriving after, query bytes straddling the signal) x signal pattern (SIGINT, admin SHUTDOWN, SIGTERM, SIGINT twice, SIGHUP then SIGINT, SIGINT then SIGTERM, SIGHUP only, none, SIGINT at time 0); all schedules with <= bound deviations; shutdown_timeout 1000 ms of virtual time".into(),
+        rule: "the accept/signal/drain loop of src/main.rs (extracted verbatim at build time) runs in the sim with the real client tasks; population = client programs (idle, slow / never-ending / extended / COPY transactions across the signal, autocommit, leaves before the signal by Terminate / hard drop / hard drop in a transaction / failed login, a cancel-request connection before the signal, a client with half a batch buffered (Parse Bind, no Sync), arrives after the signal early and late, TCP connection accepted before the signal but startup and password sent after it, session-mode, drops after the signal, statement racing the signal) + admin client (connected before, arriving after, query bytes straddling the signal) x signal pattern (SIGINT, admin SHUTDOWN, SIGTERM, SIGINT twice, SIGHUP then SIGINT, SIGINT then SIGTERM, SIGHUP only, none, SIGINT at time 0, SIGINT while the pools are paused); all schedules with <= bound deviations; shutdown_timeout 1000 ms of virtual time".into(),
         assumptions: vec![
             "process exit = the extracted main loop returning; unix signals are delivered through channels with tokio's Signal::recv shape (coalescing of signals that arrive before a recv is not modelled: two SIGINTs are two events); the admin SHUTDOWN's kill(self, SIGINT) goes through the verif::signal hook".into(),
             "a client that had not finished logging in when SIGINT arrived may be cut by the exit (not judged)".into(),
@@ -723,7 +727,7 @@ pub fn export_scenario(sc: &Scenario) -> serde_json::Value {
 /// does not hinge on the order of two events in the same instant.
 pub fn conformance_scenarios(tier: &str) -> Vec<Scenario> {
     let mut v = Vec::new();
-    let sigs: Vec<&str> = SIGNALS.iter().copied().filter(|s| *s != "INT-at-0").collect();
+    let sigs: Vec<&str> = SIGNALS.iter().copied().filter(|s| *s != "INT-at-0" && *s != "PAUSE+INT").collect();
     for a in CLIENT_PROGS {
         if *a == "idle-then-q" || *a == "cancel-early" || *a == "slow-login" {
             continue;
